@@ -384,7 +384,41 @@ pub fn run(ctx: &Ctx) {
                 }
             }
             info.sample = Some(json!({"stage": format!("{:?}", e.stages[0]), "damaged": Bytes::new(&d[..d.len().min(48)])}));
-            check_corrupt(&e.stages[0], &d)
+            check_corrupt(&e.stages[0], &d)?;
+            // damage *below* the compression: a predicted byte stream that is a few bytes short or long,
+            // or has a bad row tag, compressed correctly
+            if let Some((pred, g)) = &e.stages[0].pred {
+                let mut t = Tape::new(&c.tape);
+                let predicted = if *pred == 2 { rf::tiff_encode(&e.plain, *g) } else { rf::png_encode(&e.plain, *g, |r| (r % 5) as u8) };
+                for variant in 0..6usize {
+                    let mut p = predicted.clone();
+                    match variant {
+                        0 => {
+                            p.pop();
+                        }
+                        1 => {
+                            p.pop();
+                            p.pop();
+                        }
+                        2 => p.push(1),
+                        3 => p.extend_from_slice(&[2, 7]),
+                        4 => {
+                            if !p.is_empty() {
+                                p[0] = 9;
+                            }
+                        }
+                        _ => p.truncate(p.len() / 2 + 1),
+                    }
+                    let enc = match &e.stages[0].base {
+                        Base::Lzw { early } => rf::lzw_encode(&p, *early, &mut t),
+                        Base::Flate { raw, level } => rf::flate_encode(&p, *raw, *level),
+                        _ => continue,
+                    };
+                    info.label("damage-below-compression");
+                    check_corrupt(&e.stages[0], &enc)?;
+                }
+            }
+            Ok(())
         },
     );
 
